@@ -1455,7 +1455,9 @@ def parse_bankacctinfos(acctinfos: Sequence[models.BANKACCTINFO]) -> ParsedAccti
             bankids.append(inf.bankid)
             args_[inf.accttype.lower()].append(inf.acctid)
 
-    args_["bankid"] = utils.collapseToSingle(bankids, "BANKIDs")
+    # No ACTIVE bank account: nothing to request, hence no BANKID to configure
+    if bankids:
+        args_["bankid"] = utils.collapseToSingle(bankids, "BANKIDs")
     return dict(args_)
 
 
@@ -1468,7 +1470,9 @@ def parse_invacctinfos(acctinfos: Sequence[models.INVACCTINFO]) -> ParsedAcctinf
             brokerids.append(acctfrom.brokerid)
             args_["investment"].append(acctfrom.acctid)
 
-    args_["brokerid"] = utils.collapseToSingle(brokerids, "BROKERIDs")
+    # No ACTIVE investment account: nothing to request, hence no BROKERID to configure
+    if brokerids:
+        args_["brokerid"] = utils.collapseToSingle(brokerids, "BROKERIDs")
     return dict(args_)
 
 
